@@ -66,11 +66,9 @@ class SymNp(types.ModuleType):
 
         @functools.wraps(real)
         def guarded(*a, **k):
-            fx = _foreign(a, k)
-            if fx is not None:
-                r = fx.__array_function__(guarded, (type(fx),), a, k)
-                if r is not NotImplemented:
-                    return r
+            r = _dispatch(guarded, a, k)
+            if r is not NotImplemented:
+                return r
             if has_sym(a) or has_sym(k):
                 raise UnsupportedSymbolicOp(f"np.{name} on symbolic data")
             with _np.errstate(all="ignore"):
@@ -88,19 +86,48 @@ def _reg(f):
     return f
 
 
-def _foreign(a, k):
-    """first argument (one level into lists/tuples) of a non-ndarray type implementing __array_function__"""
+_PLAIN = None
+
+
+def _foreign_all(a, k):
+    """arguments (one level into lists/tuples) of non-ndarray types implementing __array_function__, in NumPy's
+    dispatch order: first appearance, a subclass before its superclasses"""
     def it():
         for x in list(a) + list(k.values()):
             yield x
             if isinstance(x, (list, tuple)):
                 yield from x
+    out = []
     for x in it():
         if isinstance(x, (SymArray, _np.ndarray, SV, XorSet, int, float, bool, str, type(None), _np.generic, list, tuple, dict, slice)):
             continue
-        if hasattr(type(x), "__array_function__"):
-            return x
-    return None
+        if hasattr(type(x), "__array_function__") and not _b.any(type(y) is type(x) for y in out):
+            pos = len(out)
+            for i, y in enumerate(out):
+                if issubclass(type(x), type(y)):
+                    pos = i
+                    break
+            out.insert(pos, x)
+    return out
+
+
+def _foreign(a, k):
+    """first dispatch candidate of _foreign_all (None when there is none)"""
+    f = _foreign_all(a, k)
+    return f[0] if f else None
+
+
+def _dispatch(func, a, k):
+    """NumPy's __array_function__ protocol: every overloading type is asked in turn; NotImplemented from all -> fall through"""
+    fs = _foreign_all(a, k)
+    if not fs:
+        return NotImplemented
+    types = tuple(type(x) for x in fs)
+    for x in fs:
+        r = x.__array_function__(func, types, a, k)
+        if r is not NotImplemented:
+            return r
+    return NotImplemented
 
 
 def sym_or_real(name):
@@ -109,12 +136,9 @@ def sym_or_real(name):
     def deco(f):
         @functools.wraps(f)
         def g(*a, **k):
-            fx = _foreign(a, k)
-            if fx is not None:
-                types = tuple({type(fx)})
-                r = fx.__array_function__(g, types, a, k)
-                if r is not NotImplemented:
-                    return r
+            r = _dispatch(g, a, k)
+            if r is not NotImplemented:
+                return r
             if not (has_sym(a) or has_sym(k)):
                 o = k.get("out")
                 with _np.errstate(all="ignore"):
